@@ -9,7 +9,9 @@ import Cel.Model.Coll
 
   <expr> prefix notation:
     i<int> u<nat> bT bF s<cp>.<cp>…  (s alone = empty string)      literals
-    v<n>                                                           macro variable
+    nul   d<bits> dnan                                             null, double (IEEE bits as a decimal), NaN
+    v<n>                                                           macro variable / variable of the context
+    I|C env <n> (<id> <literal expr>)×n <expr>                     evaluation with context bindings
     L <n> e…        M <n> k v …       idx a i      sel <str> a      has <str> a
     size a   neg a   not a   && a b   || a b   ?: c a b
     + - * / % == != < <= > >= in   a b
@@ -106,6 +108,10 @@ partial def parse : List String → Option (E × List String)
         if t.startsWith "i" then (t.drop 1).toString.toInt?.map fun i => (.lit (.int i), rest)
         else if t.startsWith "u" then (t.drop 1).toString.toNat?.map fun n => (.lit (.uint n), rest)
         else if t.startsWith "v" then (t.drop 1).toString.toNat?.map fun n => (.var n, rest)
+        else if t == "nul" then some (.lit .null, rest)
+        else if t == "dnan" then some (.lit (.dbl (0.0 / 0.0)), rest)
+        else if t.startsWith "d" then
+          (t.drop 1).toString.toNat?.map fun n => (.lit (.dbl (Float.ofBits n.toUInt64)), rest)
         else if t.startsWith "s" then (parseStr t).map fun cs => (.lit (.str cs), rest)
         else none
   | [] => none
@@ -114,7 +120,29 @@ partial def parseN : Nat → List String → Option (List E × List String)
   | n+1, rest => do let (x, r1) ← parse rest; let (xs, r2) ← parseN n r1; pure (x :: xs, r2)
 end
 
+partial def parseBinds : Nat → List String → Option (List (Nat × E) × List String)
+  | 0, rest => some ([], rest)
+  | n+1, x :: rest => do
+      let x ← x.toNat?
+      let (b, r1) ← parse rest
+      let (bs, r2) ← parseBinds n r1
+      pure ((x, b) :: bs, r2)
+  | _, _ => none
+
+def runner? : String → Option Runner
+  | "I" => some .I | "C" => some .C | _ => none
+
 def handle : Handler
+  | r :: "env" :: n :: rest =>
+      match runner? r, n.toNat? with
+      | some r, some n =>
+          match parseBinds n rest with
+          | some (bs, rest') =>
+              match parse rest' with
+              | some (e, []) => runWith r bs e
+              | _ => "bad-op"
+          | none => "bad-op"
+      | _, _ => "bad-op"
   | "I" :: rest => match parse rest with
       | some (e, []) => run .I e | _ => "bad-op"
   | "C" :: rest => match parse rest with
